@@ -164,6 +164,37 @@ struct ExtraOps<V, true> {
 };
 #endif
 
+// SmallVector(amc::vector&&): adopt the dynamic buffer of a vector (possibly smaller than the inline capacity)
+template <class V, bool Adoptable>
+struct AdoptOp {
+  static bool run(V &, std::vector<Val> &, Rng &, int &, size_t, std::string &) { return false; }
+};
+template <class V>
+struct AdoptOp<V, true> {
+  typedef typename V::value_type T;
+  typedef amc::vector<T, typename V::allocator_type, typename V::size_type> AV;
+  static bool run(V &v, std::vector<Val> &m, Rng &r, int &pay, size_t room, std::string &desc) {
+    size_t n = 1 + r.below(4);
+    if (n > room) n = room;
+    AV av;
+    std::vector<Val> xs;
+    for (size_t i = 0; i < n; ++i) { Val x{(int)r.below(50), ++pay}; xs.push_back(x); av.push_back(T(x.key, x.pay)); }
+    if (r.below(2)) av.shrink_to_fit();
+    V tmp(std::move(av));
+    v = std::move(tmp);
+    m = xs;
+    char b[64];
+    snprintf(b, sizeof b, "adopt_vector(%zu)", n);
+    desc = b;
+    return true;
+  }
+};
+template <class V>
+struct IsAdoptable {
+  typedef amc::vector<typename V::value_type, typename V::allocator_type, typename V::size_type> AV;
+  static const bool value = (V::kInlineCapacity > 0) && !std::is_same<typename V::allocator_type, amc::vec::EmptyAlloc>::value && !std::is_same<V, AV>::value;
+};
+
 template <class V>
 struct VecScript {
   typedef typename V::value_type T;
@@ -194,7 +225,7 @@ struct VecScript {
         V &w = useB ? a : b;
         std::vector<Val> &m = useB ? mb : ma;
         std::vector<Val> &mw = useB ? ma : mb;
-        unsigned op = r.below(mask ? 37 : 32);
+        unsigned op = r.below(mask ? 38 : 33);
         size_t sz = m.size();
         std::string desc;
         char d[160];
@@ -366,8 +397,11 @@ struct VecScript {
               { V c((S)n, t); std::vector<Val> mc(n, x); check(c, mc, "ctor(n,v)"); }
               snprintf(d, sizeof d, "ctors(%zu)", n); desc = d;
             } break;
+            case 32:
+              if (!AdoptOp<V, IsAdoptable<V>::value>::run(v, m, r, pay, room, desc)) desc = "adopt_vector(n/a)";
+              break;
             default:
-              if (!ExtraOps<V, HasAppend<V>::value>::run((int)op - 32, v, w, m, mw, r, pay, room, desc)) desc = "extra(unavailable)";
+              if (!ExtraOps<V, HasAppend<V>::value>::run((int)op - 33, v, w, m, mw, r, pay, room, desc)) desc = "extra(unavailable)";
               break;
           }
         } catch (std::out_of_range &) { exc = " !out_of_range";
